@@ -33,7 +33,7 @@ func c15Lits(fn *ssa.Function) []*ssa.Function {
 }
 
 func c15R1(c *Ctx, r *Report) {
-	r.Rule("C15-R1", "E2 pathrules", "write order of the registry/config protocol in InsertConfig, UpdateConfig, DeleteConfig and rollbackRegistry", 9)
+	r.Rule("C15-R1", "E2 pathrules", "write order of the registry/config protocol in InsertConfig, UpdateConfig, DeleteConfig and rollbackRegistry", 10)
 	cfgWrite := map[string]string{
 		"(*rest.bootstrapContext).InsertConfig": "InsertMetadataDocument",
 		"(*rest.bootstrapContext).UpdateConfig": "WriteMetadataDocument",
@@ -107,6 +107,31 @@ func c15R1(c *Ctx, r *Report) {
 			ok := len(getOK) > 0 && len(mutOK) > 0 && DominatedBy(worker, s, NewAvoid().AddEdge(getOK...)) && DominatedBy(worker, s, NewAvoid().AddEdge(mutOK...))
 			r.Check("C15-R1", fmt.Sprintf("fn=%s$worker registry-write #%d after=recovery-read-and-accepted-mutation", name, i+1), c.Pos(s.Pos()), ok,
 				"registry written only after recovery (getRegistryAndDatabase) and an accepted registry mutation", "the registry can be written without the recovery read having succeeded or the mutation having been accepted (collection conflicts unchecked / half-applied change not repaired first)")
+		}
+	}
+	// DeleteConfig finalize: the registry entry is removed only if it is still the deleted marker written in step 2
+	if fn := c.Func("(*rest.bootstrapContext).DeleteConfig"); fn != nil {
+		found := false
+		for _, lit := range c15Lits(fn) {
+			rm := c.Calls(lit, false, nameIs("(*rest.GatewayRegistry).removeDatabase"))
+			if len(rm) == 0 {
+				continue
+			}
+			found = true
+			var deleted []Edge
+			for _, call := range c.Calls(lit, false, nameHasSuffix(".IsDeleted")) {
+				cv := valueOfCall(call)
+				pos, _ := EdgesOnValue(lit, func(v ssa.Value) bool { return v == cv })
+				deleted = append(deleted, pos...)
+			}
+			for i, x := range rm {
+				ok := len(deleted) > 0 && DominatedBy(lit, x, NewAvoid().AddEdge(deleted...))
+				r.Check("C15-R1", fmt.Sprintf("fn=DeleteConfig$finalize registry-entry-removal #%d only-if=still-deleted-marker", i+1), c.Pos(x.Pos()), ok,
+					"the finalize step removes only the entry it marked deleted", "the finalize step of a delete removes whatever entry the registry now holds for the name: a database re-created by another node in the meantime loses its registry entry (an acknowledged create is lost)")
+			}
+		}
+		if !found {
+			r.Fail("C15-R1", "fn=DeleteConfig$finalize registry-entry-removal", c.Pos(fn.Pos()), "finalize step not found")
 		}
 	}
 	// rollbackRegistry: fence before registry write
